@@ -16,7 +16,7 @@ import (
 	"verif/wire"
 )
 
-var c12States = []string{"never-connected", "never-connected-signal-taken", "down-signal-taken", "dialing", "connect-write-blocked", "connack-read-blocked", "resend-write-blocked", "online-idle", "online-writer-blocked", "holding-message", "holding-big-message", "writer-failed-unnoticed", "connect-awaits-sequence-lock", "down", "pending-reconnect", "closed-already"}
+var c12States = []string{"never-connected", "never-connected-signal-taken", "down-signal-taken", "dialing", "connect-write-blocked", "connack-read-blocked", "resend-write-blocked", "online-idle", "online-writer-blocked", "holding-message", "holding-big-message", "writer-failed-unnoticed", "connect-awaits-sequence-lock", "down", "pending-reconnect", "closed-already", "disconnect-write-fails"}
 var c12Actions = []string{"Close", "Disconnect-nil", "Disconnect-open-quit", "Disconnect-closed-quit"}
 
 func runShutdown(c *run.Ctx, state string, actions []string, parkHook bool, pendingPubs int, adopted int) {
@@ -44,7 +44,14 @@ func runShutdown(c *run.Ctx, state string, actions []string, parkHook bool, pend
 	saveHeld := false
 	gatedWrite := false
 	failNextWrite := false
+	failDisconnect := false
 	w.WritePlan = func(cn *sim.Conn, p []byte) sim.WriteDecision {
+		if failDisconnect && len(p) != 0 && p[0] == wire.DISCONNECT<<4 {
+			// the DISCONNECT itself is lost: 0 or 1 of its bytes pass, the
+			// connection stays open as far as the transport is concerned
+			failDisconnect = false
+			return sim.WriteDecision{Accept: w.Rng.Intn(len(p)), Then: "error"}
+		}
 		if failNextWrite && len(p) != 0 {
 			failNextWrite = false
 			return sim.WriteDecision{Accept: w.Rng.Intn(len(p)), Then: "error"}
@@ -236,13 +243,17 @@ func runShutdown(c *run.Ctx, state string, actions []string, parkHook bool, pend
 			stuck("state " + state + " not reached")
 			return
 		}
-	case "online-idle", "online-writer-blocked", "holding-message", "holding-big-message", "writer-failed-unnoticed", "pending-reconnect":
+	case "online-idle", "online-writer-blocked", "holding-message", "holding-big-message", "writer-failed-unnoticed", "pending-reconnect", "disconnect-write-fails":
 		d.GrantWhenPaused(sim.StepTimeout)
 		if !w.WaitUntil(sim.StepTimeout, func() bool { return w.PointCountLocked("connect.resent") > 0 && w.ReaderQuietLocked() }) {
 			stuck("connect")
 			return
 		}
 		switch state {
+		case "disconnect-write-fails":
+			w.Mu.Lock()
+			failDisconnect = true
+			w.Mu.Unlock()
 		case "online-writer-blocked":
 			for i := 0; i < 1+c.Rng.Intn(3); i++ {
 				tag := fmt.Sprint("w/", i)
@@ -645,7 +656,7 @@ func init() {
 			return 1100
 		},
 		ChunkSize:   40,
-		Rule:        "state x action matrix, states reached deterministically by gating: never connected; Dialer blocked; CONNECT write blocked after 0..n bytes; CONNACK read blocked after 0-3 bytes; resend write blocked mid-packet; online idle (with Subscribe and Ping awaiting responses); online with 1-3 Publish calls and a Subscribe, the first blocked inside Write; application holding a returned message; the same with a request's write having failed meanwhile (connection pending, signals still online); a connect attempt that got its CONNACK and waits for the sequence lock of a publish inside Persistence.Save; down after a failed connect; connection lost and not yet redialled; closed already. Actions: 1-4 of Close, Disconnect(nil), Disconnect(open quit), Disconnect(closed quit) concurrently, optionally delayed at the close.locked/disconnect.locked hook points and with yields at connect hook points; 0-4 persisted publishes pending whose exchange channels are deliberately left undrained. Oracle: every action returns while the connection operations stay blocked (a Disconnect may wait for a held write, which is then released); no panic; ReadSlices reports ErrClosed without another dial; in-flight requests return; afterwards all nine public methods return ErrClosed, Close returns nil, Offline is released, Online blocked, and the pair was never seen released together (sampler running all along); every pending exchange holds an ErrClosed and is still open; every connection got closed; a Disconnect that returned nil made DISCONNECT the last packet of its connection; no goroutine with a library frame remains. Non-trivial: action issued in a non-idle state; distinct by (state, action multiset, hook delay, pending publishes).",
+		Rule:        "state x action matrix, states reached deterministically by gating: never connected; Dialer blocked; CONNECT write blocked after 0..n bytes; CONNACK read blocked after 0-3 bytes; resend write blocked mid-packet; online idle (with Subscribe and Ping awaiting responses); online idle with the write of the DISCONNECT packet failing after 0-1 bytes on a transport that stays open; online with 1-3 Publish calls and a Subscribe, the first blocked inside Write; application holding a returned message; the same with a request's write having failed meanwhile (connection pending, signals still online); a connect attempt that got its CONNACK and waits for the sequence lock of a publish inside Persistence.Save; down after a failed connect; connection lost and not yet redialled; closed already. Actions: 1-4 of Close, Disconnect(nil), Disconnect(open quit), Disconnect(closed quit) concurrently, optionally delayed at the close.locked/disconnect.locked hook points and with yields at connect hook points; 0-4 persisted publishes pending whose exchange channels are deliberately left undrained. Oracle: every action returns while the connection operations stay blocked (a Disconnect may wait for a held write, which is then released); no panic; ReadSlices reports ErrClosed without another dial; in-flight requests return; afterwards all nine public methods return ErrClosed, Close returns nil, Offline is released, Online blocked, and the pair was never seen released together (sampler running all along); every pending exchange holds an ErrClosed and is still open; every connection got closed; a Disconnect that returned nil made DISCONNECT the last packet of its connection; no goroutine with a library frame remains. Non-trivial: action issued in a non-idle state; distinct by (state, action multiset, hook delay, pending publishes).",
 		Assumptions: []string{"promptness is decided structurally: the actions must return while the gates that block the connection operations stay closed", "goroutines get 2 s to wind down before they count as left behind"},
 		Run: func(c *run.Ctx) {
 			state := c12States[c.Case%len(c12States)]
